@@ -191,7 +191,12 @@ idiom is tied by text and differential execution only) -/
 structure BackendOK (B : Backend) : Prop where
   notToken : B.how ≠ "token"
   handleNotVec : ∀ t, isVecType (B.handleTy t) = false
+  handlePlain : ∀ t, B.handleTy t ≠ "double" ∧ B.handleTy t ≠ "float" ∧ B.handleTy t ≠ "int" ∧ B.handleTy t ≠ "bool"
   resultInit : B.resultInit = none ∨ B.resultInit = some (.int 0)
+
+theorem castTo_plain (N : Num D) (ty : String) (v : Val D)
+    (h : ty ≠ "double" ∧ ty ≠ "float" ∧ ty ≠ "int" ∧ ty ≠ "bool") : castTo N ty v = .ok v := by
+  simp [castTo, h.1, h.2.1, h.2.2.1, h.2.2.2]
 
 /-- names the fragment starting at `n` may touch: its own supply range and the retrieval's `result` -/
 def Touch (nm : Nat → String) (lo hi : Nat) (y : String) : Prop := InRange nm lo hi y ∨ y = "result"
@@ -240,7 +245,7 @@ theorem compChain_correct {β : Type} (C : Ctx D) (QC : QCtx D) (hN : QC.N = C.N
       cases hsx : s.env (nm n) with
       | none => rw [hsx] at hx; simp at hx
       | some _ => simp
-    · simp only [exec, execs, hi, hB.notToken, if_false, σ2, evalE]
+    · simp only [exec, execs, hi, hB.notToken, if_false, σ2, evalE, castTo_plain C.N _ _ (hB.handlePlain cty)]
       simp [Env.set, hreq, evalE, hxr, hx]
       cases hsx : s.env (nm n) with
       | none => rw [hsx] at hx; simp at hx
